@@ -101,7 +101,11 @@ inline Registry& registry()
 
 // trivial_default: defaulted (trivial) default constructor, user-provided copy/move/destructor - the shape
 // etl::is_trivially_copy_constructible mis-classifies (it only looks at default construction)
-enum TrackedFlavour { copy_move = 0, move_only = 1, copy_only = 2, trivial_default = 3 };
+// rule3: user-provided copy constructor and destructor, but a DEFAULTED (trivial) copy assignment and no move members
+// ("rule of three violator", e.g. an instance counter).  Owners that pick memberwise assignment from
+// is_trivially_copy_assignable alone skip the destroy/construct pair such a type needs when the alternative changes
+// (seeded breakage c03_variant_copy_assign_trivial_concept).
+enum TrackedFlavour { copy_move = 0, move_only = 1, copy_only = 2, trivial_default = 3, rule3 = 4 };
 
 /// Instrumented element.  F selects which special members exist.  `tag` distinguishes
 /// alternative types (variant<TrackedA, TrackedB>) without changing behaviour.
@@ -120,7 +124,7 @@ struct Tracked {
     }
     explicit(false) Tracked(int x) : v(x) { registry().construct(this); }
 
-    Tracked(Tracked const& o)
+    Tracked(Tracked const& o) noexcept(F == rule3) // etl::variant insists on nothrow "move" construction
         requires(F != move_only)
         : v(o.v)
     {
@@ -129,7 +133,7 @@ struct Tracked {
         ++registry().copies;
     }
     Tracked(Tracked&& o) noexcept
-        requires(F != copy_only)
+        requires(F != copy_only && F != rule3)
         : v(o.v)
     {
         registry().source(&o, "move construction from storage that holds no live object");
@@ -141,7 +145,10 @@ struct Tracked {
         }
     }
     auto operator=(Tracked const& o) -> Tracked&
-        requires(F != move_only)
+        requires(F == rule3)
+    = default;
+    auto operator=(Tracked const& o) -> Tracked&
+        requires(F != move_only && F != rule3)
     {
         registry().source(&o, "copy assignment from storage that holds no live object");
         registry().assign_to(this);
@@ -150,7 +157,7 @@ struct Tracked {
         return *this;
     }
     auto operator=(Tracked&& o) noexcept -> Tracked&
-        requires(F != copy_only)
+        requires(F != copy_only && F != rule3)
     {
         registry().source(&o, "move assignment from storage that holds no live object");
         registry().assign_to(this);
